@@ -9,8 +9,9 @@ Statement (fixed): formatting any parsed TL2 file (with the default and the cano
 to the same declarations, and formatting that text again yields the same text.
 
 `RoundTrip o f` / `Idempotent o f` below are the two halves for one options value; `Statement` is the property at
-full strength over the model (`parseTL2File`, `printFile`). It is FALSE for the unchanged code: two counter-examples
-are proved (`statement_fails`, known_findings.d/C22.json). What is proved for ALL files:
+full strength over the model (`parseTL2File`, `printFile`). It is FALSE for the current code: a counter-example
+is proved (`statement_fails`, known_findings.d/C22.json; a second one was repaired in /repo 11a4a9c8, see
+`one_variant_union_roundtrips_now`). What is proved for ALL files:
 * idempotence follows from the round trip (canonical options: from the declarations alone; default options: from
   everything the formatter can print), i.e. the formatter reads nothing else;
 * the TL2 parser is complete on printed token sequences (`parse_of_printed_token_sequence`), hence the round trip holds
@@ -37,7 +38,7 @@ def Statement : Prop :=
   ∀ o, (o = defaultOptions ∨ o = canonicalOptions) → ∀ f, Parsed f → RoundTrip o f ∧ Idempotent o f
 
 /-- The decidable guard outside of which the unchanged code is known to violate the statement. -/
-def Guard (f : File) : Bool := !(f.any Comb.hasDep) && !(f.any Comb.hasSingletonUnion)
+def Guard (f : File) : Bool := !(f.any Comb.hasDep)
 
 /-- The statement restricted to the guard: what checks/C22.py evaluates on every explored input
 (not proved; see the module comment). -/
@@ -168,12 +169,16 @@ def wDep : File := getFile (parseTL2File (bs "a = _x:int;\n"))
 theorem wOne_parsed : Parsed wOne := ⟨bs "a = | B;\n", eq_of_isFile (by decide +kernel)⟩
 theorem wDep_parsed : Parsed wDep := ⟨bs "a = _x:int;\n", eq_of_isFile (by decide +kernel)⟩
 
-/-- the formatted one-variant union (`a = B;`) is rejected by the parser. -/
-theorem roundtrip_fails_at_one_variant_union : ¬ RoundTrip canonicalOptions wOne := by
-  intro ⟨f', h, _⟩
-  have : isError (parseTL2File (printFile canonicalOptions wOne)) = true := by decide +kernel
-  rw [h] at this
-  cases this
+/-- Historical note: until /repo commit 11a4a9c8 a one-variant union printed on one line lost its leading `|`
+(`a = | B;` was formatted as `a = B;`, which the parser rejects); this file proved
+`roundtrip_fails_at_one_variant_union : ¬ RoundTrip canonicalOptions wOne`. With the repaired printer
+(`i != 0 || forceNewline || len(Variants) == 1`, modelled in `printVariants`) the witness round-trips: -/
+theorem one_variant_union_roundtrips_now :
+    isFile (parseTL2File (printFile canonicalOptions wOne)) = true ∧
+    (getFile (parseTL2File (printFile canonicalOptions wOne))).any Comb.hasSingletonUnion = true ∧
+    printFile canonicalOptions (getFile (parseTL2File (printFile canonicalOptions wOne))) = printFile canonicalOptions wOne ∧
+    printFile defaultOptions (getFile (parseTL2File (printFile defaultOptions wOne))) = printFile defaultOptions wOne := by
+  decide +kernel
 
 /-- the formatted deprecated-name field (`a = _:int;`) parses back to a different declaration. -/
 theorem roundtrip_fails_at_dep_name : ¬ RoundTrip canonicalOptions wDep := by
@@ -188,11 +193,10 @@ theorem roundtrip_fails_at_dep_name : ¬ RoundTrip canonicalOptions wDep := by
 
 theorem statement_fails : ¬ Statement := by
   intro h
-  exact roundtrip_fails_at_one_variant_union (h canonicalOptions (Or.inr rfl) wOne wOne_parsed).1
+  exact roundtrip_fails_at_dep_name (h canonicalOptions (Or.inr rfl) wDep wDep_parsed).1
 
-/-- both witnesses are outside the guard, each for its own reason -/
-theorem witnesses_outside_guard : Guard wOne = false ∧ Guard wDep = false ∧
-    wOne.any Comb.hasDep = false ∧ wDep.any Comb.hasSingletonUnion = false := by decide +kernel
+/-- the remaining witness is outside the guard; the repaired one-variant union is inside it -/
+theorem witnesses_outside_guard : Guard wDep = false ∧ Guard wOne = true := by decide +kernel
 
 /-! ### The guard is satisfiable by non-trivial files, and the property holds there (instances) -/
 
